@@ -284,6 +284,7 @@ def corpus_descriptions():
 def run(ctx):
     thorough = ctx.tier == "thorough"
     from tools import extract_fstmts, c01_tie, c01_oracle
+    c01_oracle.KIND_RUNS.clear()
     # ------------------------------------------------------------ (T) translator
     translator_error = None
     try:
@@ -415,10 +416,24 @@ def run(ctx):
         nrun += c01_oracle.check_library(ctx, work, "cfih", "qlib", [
             c01_oracle.Func("h0", "void", [c01_oracle.CstrIn("s0")]),
             c01_oracle.Func("h1", "void", [c01_oracle.StringInout("s1")])], True, [(1, 0)], workers=2)
+        # the open part of the F_CFI finding, reproduced on every run: a context RESULT with a character argument
+        nrun += c01_oracle.check_library(ctx, work, "cfires", "qlib", [
+            c01_oracle.Func("r99", "iptr", [c01_oracle.DimArg("d99"), c01_oracle.StringIn("s99")])], True, [(1, 0)], workers=1, force=True)
         # the same C-subset description as a C library and as a C++ library: identical traces required
         cfuncs = c01_oracle.fixed_spec(False)
         nrun += c01_oracle.check_library(ctx, work, "csub", "qlib", cfuncs, True, full if thorough else [(0, 1)], workers=8)
         ctx.note("oracle_configurations_run", nrun)
+        runs = dict(sorted(c01_oracle.KIND_RUNS.items()))
+        cov = {k: sum(v for kk, v in runs.items() if kk.split("/")[0] == k) for k in c01_oracle.MODELLED_KINDS}
+        ctx.note("oracle_kind_coverage", {"executions_with_matching_trace": runs,
+                                          "modelled_kinds_not_executed": sorted(k for k, v in cov.items() if v == 0),
+                                          "note": "charIn: `const char *` takes the trim()//C_NULL_CHAR path with F_CFI=false (c_char_*_in_buf is "
+                                                  "not reachable: ftrim_char_in is always set) and c_char_*_in_cfi with F_CFI=true; vectorResult "
+                                                  "(f_vector_result without allocatable) is not reachable from a declaration: a by-value vector "
+                                                  "result always gets deref(allocatable)"})
+        missing = [k for k, v in cov.items() if v == 0 and k != "vectorResult"]
+        if missing and not ctx.failing and not ctx.broken:
+            ctx.tie_broken("oracle kind coverage: modelled kinds not executed in this run", missing)
     finally:
         common.rmtree(work)
 
